@@ -238,6 +238,7 @@ def judge(ctx, scenarios, kinds, family, known_map=None, **kw):
     """Runs the scenarios, evaluates, reports verdicts of the given kinds as disagreements.
     Returns stats."""
     by = run_children(ctx, scenarios, **kw)
+    ctx.last_events = by
     order = [s["id"] for s in scenarios]
     verdicts, nev = evaluate(ctx, by, order)
     scen = {s["id"]: s for s in scenarios}
